@@ -297,9 +297,53 @@ def script_of(c):
 WMSG = re.compile(r'^"s\d+"  \[=\d+\]  \[w\]')
 
 
+def extra(env, tier, seed):
+    """text typed for a / i / c reaches the buffer byte for byte: every byte value except NUL and newline, inside a line and alone on it"""
+    out = []
+    n = 0
+    fails = []
+    for cmd in ("a", "i", "c"):
+        c = {"kind": "bytes", "cmd": cmd}
+        o = run_bytes(env, c)
+        n += 2 * 254
+        if not o.ok and not o.inconclusive:
+            fails.append({"case": c})
+    out.append({"name": "typed_text_is_byte_transparent", "exhaustive": True, "evaluations": n, "distinct_nontrivial": n,
+                "space": "commands a i c x byte values 1..255 except newline x {inside a line, alone on a line}",
+                "samples": ["2a / X\\xffY / \\xff / . : both lines arrive unchanged, the lines around them keep their bytes"], "violations": fails})
+    return out
+
+
+def run_bytes(env, c):
+    d = env.fresh()
+    runner.write_file(d, "f", b"one\ntwo\nthree\n")
+    vals = [b for b in range(1, 256) if b != 10]
+    blk = []
+    for b in vals:
+        blk.append(b"X" + bytes([b]) + b"Y")
+        if b != 0x2e:       # (a line with only a dot ends the text)
+            blk.append(bytes([b]))
+    script = b"2" + c["cmd"].encode() + b"\n" + b"".join(l + b"\n" for l in blk) + b".\nw! out\n"
+    r = runner.run_editor(env.paths["vi"], ["-s", "-e", "f"], script + runner.EX_TRAILER, d)
+    if r.timeout:
+        return Outcome(True, False, ["bytes", "timeout"], inconclusive=True)
+    if r.crashed():
+        return Outcome(False, True, ["bytes"], detail={"why": "editor crashed", "sig": r.signature(), "cmd": c["cmd"]})
+    want = {"a": [b"one", b"two"] + blk + [b"three"], "i": [b"one"] + blk + [b"two", b"three"], "c": [b"one"] + blk + [b"three"]}[c["cmd"]]
+    got = runner.read_file(d, "out")
+    if got != b"".join(l + b"\n" for l in want):
+        gl = (got or b"").split(b"\n")
+        k = next((i for i in range(len(want)) if i >= len(gl) or gl[i] != want[i]), len(want))
+        return Outcome(False, True, ["bytes"], detail={"why": "text typed for 2%s did not arrive byte for byte: line %d of the result is %r, expected %r" %
+                                                      (c["cmd"], k + 1, gl[k] if k < len(gl) else None, want[k] if k < len(want) else None), "cmd": c["cmd"]})
+    return Outcome(True, True, ["bytes"])
+
+
 def run_case(env, c):
     if c.get("kind") == "bigfilter":
         return run_bigfilter(env, c)
+    if c.get("kind") == "bytes":
+        return run_bytes(env, c)
     d = env.fresh()
     runner.write_file(d, "f", gen.to_bytes(c["lines"]))
     for k, v in AUX.items():
